@@ -1,5 +1,6 @@
 //! Correspondence harness: runs the implementation on generated cases and prints one case
 //! line per case ("<channel> key=value ...") for the model driver.
+mod acc;
 mod art;
 mod cli;
 mod dfs;
@@ -65,6 +66,7 @@ fn main() {
         Box::new(std::io::BufWriter::new(std::fs::File::create(&outp).unwrap()))
     };
     match args[1].as_str() {
+        "acc" => acc::run(seed, count, maxn, &mode, &mut out),
         "art" => art::run(seed, count, maxn, &mode, &mut out),
         "flags" => flags::run(seed, count, &mut out),
         "dfs" => dfs::run(seed, count, maxn, &mode, &mut out),
